@@ -28,6 +28,11 @@ pub struct Expectation {
     pub collapsed: BTreeSet<(String, String)>,
     /// properties dropped because the database says they do not serialize
     pub dropped: usize,
+    /// (class, name) of properties the database marks DoesNotSerialize -> values written under that
+    /// name. The binary writer and the XML writer with default options drop them; the XML writer
+    /// with WriteUnknown / NoReflection treats them as unknown properties and keeps them. Either
+    /// is accepted: absent, or present with the value an unknown property would come back with.
+    pub optional: HashMap<(String, String), Vec<GVal>>,
     /// legacy values the migration cannot convert
     pub unmigratable: usize,
 }
@@ -196,6 +201,7 @@ pub fn expect_roundtrip(
                 Some(view) => match &view.ser {
                     None => {
                         exp.dropped += 1;
+                        exp.optional.entry((node.class.clone(), name.clone())).or_default().push(unknown_value(&val, fmt, attr_blob));
                         continue;
                     }
                     Some(ser) => (
@@ -470,11 +476,16 @@ pub fn compare_dom(exp: &Expectation, act: &CanonDom, norm: &Norm) -> Result<(),
             if e.props.contains_key(name) {
                 continue;
             }
-            let allowed = norm.extra_names_allowed
+            let allowed = (norm.extra_names_allowed
                 && exp
                     .class_props
                     .get(&e.class)
                     .map(|s| s.contains(name))
+                    .unwrap_or(false))
+                || exp
+                    .optional
+                    .get(&(e.class.clone(), name.clone()))
+                    .map(|vals| vals.iter().any(|v| val_matches(v, &a.props[name], norm)))
                     .unwrap_or(false);
             if !allowed {
                 return Err((
